@@ -13,7 +13,7 @@ LEVEL = "exploration"
 RULE = ("case = random sequence of 3..10 save_data calls on one directory "
         "(data dicts with arbitrary iteration values in arbitrary order, with "
         "or without an 'it' column, scalar and tensor shaped entries, ragged "
-        "None entries, 't' column; it / vars subsets; two refinement levels; "
+        "None entries, 't' column; it / vars subsets; refinement levels 0, 1, 2, 10, 11; six dtypes incl. overwrites with another dtype; "
         "datapath with or without trailing slash; overwriting saves) "
         "interleaved with random read_data calls. Reference model: dict "
         "(iteration, variable, level) -> last array saved for it. After every "
@@ -27,6 +27,7 @@ ASSUMPTIONS = ["sequential reference model of the store; h5py re-scan of the dir
 TIMEOUT = {"quick": 900, "thorough": 3000}
 MIN_NONTRIVIAL = {"quick": 40, "thorough": 120}
 
+LEVELS = [0, 0, 1, 1, 10, 11, 2]
 VARS = ['rho', 'alpha', 'gammadown3', 'Kdown3', 'betaup3', 'my var', 'Weyl_Psi4r']
 SHAPES = {'rho': (3, 2, 4), 'alpha': (3, 2, 4), 'gammadown3': (3, 3, 3, 2, 4),
           'Kdown3': (3, 3, 3, 2, 4), 'betaup3': (3, 3, 2, 4), 'my var': (2,),
@@ -81,10 +82,15 @@ def run_case(spec):
             if with_it:
                 data['it'] = list(its)
             if rng.random() < 0.7:
-                data['t'] = [0.5 * i + 0.25 for i in its]
+                data['t'] = ([0.5 * i + 0.25 for i in its] if rng.random() < 0.7
+                             else [int(i + 1) for i in its])
             none_cls = 'full'
+            dts = ['float64', 'float64', 'float32', 'int64', 'int32', 'complex128']
             for v in vs:
-                col = [rng.normal(size=SHAPES[v]) for _ in its]
+                dt = dts[int(rng.integers(len(dts)))]
+                col = [(rng.normal(size=SHAPES[v]) * 100).astype(dt) if dt != 'complex128'
+                       else (rng.normal(size=SHAPES[v]) + 1j * rng.normal(size=SHAPES[v]))
+                       for _ in its]
                 if rng.random() < 0.25 and len(its) > 1:
                     col[int(rng.integers(len(its)))] = None
                     none_cls = 'ragged-None'
@@ -102,7 +108,7 @@ def run_case(spec):
                 sub_v = [str(v) for v in rng.choice(vs, m, replace=False)]
                 kw['vars'] = list(sub_v)
                 sub_cls += '+subset-vars'
-            rl = int(rng.choice([0, 0, 1]))
+            rl = int(rng.choice(LEVELS))
             if rl:
                 kw['rl'] = rl
             snap = (copy.deepcopy(data), copy.deepcopy(kw))
@@ -146,7 +152,8 @@ def run_case(spec):
                        {"extra": extra_k, "missing": miss_k})
             else:
                 for key, arr in model.items():
-                    if disk[key].shape != arr.shape or not np.array_equal(disk[key], arr):
+                    if (disk[key].shape != arr.shape or disk[key].dtype != arr.dtype
+                            or not np.array_equal(disk[key], arr)):
                         bad = ("dataset on disk differs from the array saved for its iteration",
                                {"key": key, "order": order_cls, "subset": sub_cls})
                         break
@@ -160,7 +167,7 @@ def run_case(spec):
                 known_its = sorted({k[0] for k in model})
                 rk = int(rng.integers(1, 6))
                 rits = [int(v) for v in rng.choice(known_its + [61, 62], rk)]
-                rrl = int(rng.choice([0, 0, 1]))
+                rrl = int(rng.choice(LEVELS))
                 known_vars = sorted({k[1] for k in model if k[1] not in ('it',)})
                 allv = bool(rng.random() < 0.3)
                 rvars = [] if allv else [str(v) for v in rng.choice(
@@ -213,7 +220,8 @@ def run_case(spec):
                                 prob = (f"None returned for a saved entry [{tagsl}]",
                                         {"var": v, "it": iit, "rl": rrl})
                                 break
-                            elif np.shape(g) != exp.shape or not np.array_equal(np.asarray(g), exp):
+                            elif (np.shape(g) != exp.shape or np.asarray(g).dtype != exp.dtype
+                                  or not np.array_equal(np.asarray(g), exp)):
                                 prob = ("read_data returns other data than was saved for that iteration",
                                         {"var": v, "it": iit})
                                 break
